@@ -562,6 +562,9 @@ impl<'lexer> Lexer<'lexer> {
     current_part.push(ch);
     // start parsing the rest of input using a state machine
     let mut state = 1;
+    // a request for a type name concerns only the name consumed now
+    let type_name = self.type_name;
+    self.type_name = false;
     loop {
       match state {
         1 => {
@@ -675,13 +678,12 @@ impl<'lexer> Lexer<'lexer> {
     // ------------------------------------------------------------------------
     // tweak with built-in type names
     // ------------------------------------------------------------------------
-    if self.type_name
+    if type_name
       && matches!(
         name.to_string().as_str(),
         "Any" | "Null" | "boolean" | "number" | "string" | "date" | "date and time" | "time" | "years and months duration" | "days and time duration"
       )
     {
-      self.type_name = false;
       return Ok((TokenType::BuiltInTypeName, TokenValue::BuiltInTypeName(name)));
     }
 
